@@ -126,7 +126,7 @@ FP1Rounds(A, cur) ==
 (* State *)
 InitSt == [started |-> FALSE, running |-> TRUE, round |-> 1, input |-> 0, ppjSet |-> FALSE, ppj |-> {},
            pr |-> 0, pv |-> 0, pj |-> {}, cfr |-> 0, decided |-> FALSE, dval |-> 0, dround |-> 0, qc |-> {},
-           buf |-> {}, dedup |-> {}, resend |-> [s \in Procs |-> <<0, 0>>], ndec |-> 0, timer |-> 0]
+           buf |-> {}, dedup |-> {}, resend |-> [s \in Procs |-> <<0, 0>>], ndec |-> 0, timer |-> 0, narm |-> 0]
 NoOut == [kind |-> "none"]
 Init == /\ st = [p \in Honest |-> InitSt] /\ msgs = {} /\ out = NoOut /\ unjust = {}
 
@@ -142,7 +142,7 @@ Step(kind, p, rule, uj, b, s) ==
 \* changeRound: wipes the rule dedup state and the pre-prepare justification cache
 ChangeRound(s, nr) ==
   IF s.round = nr THEN s ELSE [s EXCEPT !.round = nr, !.dedup = {}, !.ppjSet = FALSE, !.ppj = {}]
-NewTimer(s) == [s EXCEPT !.timer = s.round]          \* d.NewTimer(round): remembers the round it was armed for
+NewTimer(s) == [s EXCEPT !.timer = s.round, !.narm = @ + 1]   \* d.NewTimer(round): the round it was armed for; narm counts the calls
 RCMsg(s, p) == Full(Base("RC", p, s.round, 0, s.pr, s.pv), s.pj)              \* broadcastRoundChange
 
 \* Algorithm 1:11 -- the input has not been read yet, so the leader of round 1 only caches the empty justification
